@@ -302,6 +302,15 @@ class Walker:
                     env2 = dict(env)
                     env2[dest] = ("disc2", role, {"is_none": 0, "is_some": 1, "is_ok": 0, "is_err": 1}[nm])
                     name = nm
+            if name is None and callee_is(t, "Try::branch") and t["args"]:
+                # `r?` on a Result / Option whose variant is known on this path (e.g. the result of an inlined helper):
+                # Ok / Some -> Continue (0), Err / None -> Break (1)
+                av = self.val_of_operand(t["args"][0], env)
+                if av is not None and av[0] == "variant":
+                    cont = av[1] in ("Ok", "Some")
+                    env2 = dict(env)
+                    env2[dest] = ("variant", "Continue" if cont else "Break", 0 if cont else 1)
+                    name = "try-branch"
             if name is None and t.get("dest_ty") == "bool" and len(t["args"]) == 2 and callee_def(t).endswith(("RangeInclusive::<Idx>::contains", "Range::<Idx>::contains")):
                 # (a..=b).contains(&x)  ==  a <= x && x <= b      ((a..b): x < b) - the range built right here by RangeInclusive::new / a Range aggregate
                 rp = op_place(t["args"][0])
